@@ -277,7 +277,12 @@ func dumpDeposits(ds []depositRec) string {
 func propC10(t *rapid.T) {
 	useProfile(profSmall)
 	nW := rapid.IntRange(1, 2).Draw(t, "wallets")
+	if rapid.IntRange(0, 3).Draw(t, "withInternal") == 0 {
+		// wallets restored with internal (change-branch) addresses, which receive coins like the others
+		worldInternalHint = uint32(rapid.IntRange(1, 2).Draw(t, "internalIndex"))
+	}
 	w := newWorld(t, nW, 20, nil)
+	worldInternalHint = 0
 	defer w.close()
 	w.c09mode = true
 	w.depositsInMempool = true
